@@ -532,30 +532,44 @@ class C10(Property):
                     return
 
     def oracle_window_planes(self, ctx: Ctx, case):
-        """exit planes of a windowed potential array lie inside the window, and a multislice run over it records an exit wave"""
+        """a windowed potential array (build(a, b), potential_array[a:b]) carries the parent's exit planes that fall inside the
+        window, shifted to it (entrance plane kept when the window starts at slice 0, the window's last slice when none is left),
+        and a multislice run over it equals the run over an independently assembled array of the same slices"""
         import abtem
 
         ts = case["ts"]
         a, b = case["window"]
+        eps = case.get("eps")
         atoms = tag_atoms(0, ts, "same")
-        pot = abtem.Potential(atoms, gpts=G, slice_thickness=tuple(ts))
-        for how, w in (("getitem", pot.build(lazy=False)[a:b]), ("build", pot.build(a, b, lazy=False))):
+        pot = abtem.Potential(atoms, gpts=G, slice_thickness=tuple(ts), exit_planes=eps_arg(eps))
+        full = pot.build(lazy=False)
+        parent = [int(p) for p in full.exit_planes]
+        expected = [p - a for p in parent if a <= p < b]
+        if parent[0] == -1 and a == 0:
+            expected = [-1] + expected
+        if not expected:
+            expected = [b - a - 1]
+        ref = abtem.PotentialArray(np.asarray(full.array)[a:b], slice_thickness=tuple(ts[a:b]), extent=(CELL, CELL),
+                                   exit_planes=tuple(expected))
+        ref_wave = np.asarray(abtem.PlaneWave(energy=100e3).multislice(ref, lazy=False).array)
+        for how, w in (("getitem", full[a:b]), ("build", pot.build(a, b, lazy=False)), ("build-lazy", pot.build(a, b, lazy=True).compute(progress_bar=False))):
             planes = [int(p) for p in w.exit_planes]
             ctx.evaluations += 1
-            if any(p >= b - a for p in planes):
-                wave = abtem.PlaneWave(energy=100e3).multislice(w, lazy=False)
-                ctx.violation("window-array-keeps-parent-exit-planes", case,
-                              {"how": how, "exit_planes": planes, "window_slices": b - a,
-                               "exit_wave_abs_sum": float(np.abs(np.asarray(wave.array)).sum())})
+            if planes != expected:
+                ctx.violation(f"window-array-exit-planes-wrong-{how}", case, {"exit_planes": planes, "expected": expected, "parent": parent})
+                return
+            wave = np.asarray(abtem.PlaneWave(energy=100e3).multislice(w, lazy=False).array)
+            if wave.shape != ref_wave.shape or not np.allclose(wave, ref_wave, rtol=1e-5, atol=1e-6):
+                ctx.violation(f"window-array-multislice-differs-{how}", case, {"shape": wave.shape, "ref_shape": ref_wave.shape})
                 return
 
     def conformance(self, ctx: Ctx):
         rng = ctx.rng
-        for _ in range(ctx.n(3, 20)):
+        for _ in range(ctx.n(8, 60)):
             ts = gen_ts(rng)
             n = len(ts)
             a = rng.randint(0, n - 1)
-            c = {"oracle": "window-planes", "ts": ts, "window": [a, rng.randint(a + 1, n)]}
+            c = {"oracle": "window-planes", "ts": ts, "window": [a, rng.randint(a + 1, n)], "eps": gen_eps(rng, n)}
             self.oracle_window_planes(ctx, c)
             ctx.case(c)
             ctx.count("conf-window-planes")
